@@ -161,11 +161,21 @@ class World:
         self.printed = ''
 
     def _m(self, line):
+        # after the first disagreement the two sides are in different states: nothing further is sent to the
+        # model (its state could even become cyclic), the rest of the document is not compared
+        if getattr(self, 'dead', False):
+            return 'dead'
         return self.drv.ask(line)
+
+    def _note(self, m, r):
+        if m != r and m not in ('unmodelled', 'reserved', 'dead'):
+            self.dead = True
 
     def step(self, mline, real):
         m = self._m(mline)
-        self.lines.append((mline, m, real))
+        if m != 'dead':
+            self.lines.append((mline, m, real))
+            self._note(m, real)
         return m, real
 
     def newe(self, i, cls, chk, val, kwargs):
@@ -208,7 +218,9 @@ class World:
         self.printed += out
         r = 'ok' if s == 'ok' else exc_enum(e, 'add')
         m = self._m('add %d %d %d' % (i, j, ix(c.name)) + ('' if fwd is None else ' %d' % fwd))
-        self.lines.append(('add %d %d' % (i, j), m.split('|')[0], r))
+        if m != 'dead':
+            self.lines.append(('add %d %d' % (i, j), m.split('|')[0], r))
+            self._note(m.split('|')[0], r)
         return m.split('|')[0], r
 
     def setchk(self, i, b):
@@ -235,7 +247,9 @@ class World:
         (s, e), out = quiet(p.remove, c)
         r = 'ok' if s == 'ok' else exc_enum(e, 'rm')
         m = self._m('rm %d %d' % (i, j))
-        self.lines.append(('rm %d %d' % (i, j), m.split('|')[0], r))
+        if m != 'dead':
+            self.lines.append(('rm %d %d' % (i, j), m.split('|')[0], r))
+            self._note(m.split('|')[0], r)
         return m.split('|')[0], r
 
     def obs(self, i):
@@ -256,7 +270,9 @@ class World:
                 rs = ''
             r = 'o=%s u=%s r=%s' % (ids(oc), ids(u), rs)
         m = self._m('obs %d' % i)
-        self.lines.append(('obs %d' % i, m.split('|')[0], r))
+        if m != 'dead':
+            self.lines.append(('obs %d' % i, m.split('|')[0], r))
+            self._note(m.split('|')[0], r)
         return m.split('|')[0], r
 
     def repl(self, i, old, new):
@@ -264,7 +280,9 @@ class World:
         (s, e), out = quiet(p.replace_child, o, n)
         r = 'ok' if s == 'ok' else exc_enum(e, 'repl')
         m = self._m('repl %d %d %d %d' % (i, old, new, ix(n.name)))
-        self.lines.append(('repl %d %d %d' % (i, old, new), m.split('|')[0], r))
+        if m != 'dead':
+            self.lines.append(('repl %d %d %d' % (i, old, new), m.split('|')[0], r))
+            self._note(m.split('|')[0], r)
         return m.split('|')[0], r
 
     def replx(self, i, sel_name, index, new):
@@ -274,7 +292,9 @@ class World:
         (s, e), out = quiet(p.replace_child, f, n, index)
         r = 'ok' if s == 'ok' else exc_enum(e, 'repl')
         m = self._m('replx %d %d %d %d %d' % (i, 0 if sel_name is None else ix(sel_name), index, new, ix(n.name)))
-        self.lines.append(('replx %d %s %d %d' % (i, sel_name, index, new), m, r))
+        if m != 'dead':
+            self.lines.append(('replx %d %s %d %d' % (i, sel_name, index, new), m, r))
+            self._note(m, r)
         return m, r
 
     def dotx(self, i, key, nid, value=None, inst=None):
@@ -745,14 +765,18 @@ def doc_case(drv, rnd, cls=None, depth=2, mixed_chk=False, mutate=True, copy=Fal
                         ids[:] = list(w.objs)
             elif r < 0.89 and reuse:
                 # an existing instance (detached earlier, or still attached elsewhere) is added to another element
-                j = rnd.choice(detached) if detached and rnd.random() < 0.7 else rnd.choice(ids)
+                own = [k for k, x in w.objs.items() if any(x is c for c in o.get_children(ordered=False))]
+                if own and rnd.random() < 0.25:
+                    j = rnd.choice(own)       # a child that is already attached here is offered again (often refused)
+                else:
+                    j = rnd.choice(detached) if detached and rnd.random() < 0.7 else rnd.choice(ids)
                 up, chain = w.objs[i], []
                 while up is not None and len(chain) < 100:
                     chain.append(up)
                     up = up._parent
                 # no cycles, neither through the child lists nor through (possibly stale) parent pointers
                 if i not in w.below(j) and not any(x is w.objs[j] for x in chain):
-                    w.add(i, j)
+                    w.add(i, j, rnd.choice([None, None, None, 0, 1, 2]))
                     w.obs(i)
                     w.tostr(i)
             elif r < 0.92 and reuse:
